@@ -98,7 +98,7 @@ type c17Rec struct {
 	Q      *c17Side `json:"q,omitempty"`
 	HasF   bool     `json:"hasf"`
 	DecOK  bool     `json:"decok"`
-	Ver    int      `json:"ver"` // starlark.CompilerVersion of the build under test
+	Ver    int      `json:"ver"`          // starlark.CompilerVersion of the build under test
 	B1     obj      `json:"b1,omitempty"` // {magic, off, toks, strs}
 }
 
@@ -168,7 +168,7 @@ func fieldsOf(fn *starlark.Function) obj {
 			"doc": byteArr(f.FieldByName("Doc").String()), "code": byteArr(string(f.FieldByName("Code").Bytes())),
 			"locals": idents(f.FieldByName("Locals")), "cells": cells, "freevars": idents(f.FieldByName("FreeVars")),
 			"maxstack": int(f.FieldByName("MaxStack").Int()), "numparams": int(f.FieldByName("NumParams").Int()),
-			"numkwonly": int(f.FieldByName("NumKwonlyParams").Int()),
+			"numkwonly":  int(f.FieldByName("NumKwonlyParams").Int()),
 			"hasvarargs": f.FieldByName("HasVarargs").Bool(), "haskwargs": f.FieldByName("HasKwargs").Bool()}
 	}
 	pv := reflect.ValueOf(prog).Elem()
